@@ -261,6 +261,13 @@ pub fn child_main(req_path: &str) -> ! {
         ));
     }
 
+    if req.stale_out {
+        for st in &req.steps {
+            if let Some(p) = &st.out_path {
+                let _ = std::fs::write(p, "# stale content left by an earlier run\n".repeat(2000));
+            }
+        }
+    }
     let _heap = perturb_heap(req.heap_seed);
     seams::arm(req.sim.to_cfg(&req.root, "out/"));
     install_memo(&req.memo);
